@@ -4,12 +4,15 @@ For every archived seed: apply its patch to /repo (the mounted clone), run the c
 when it was validated (and its own property's check), record what reports it NOW in meta.json
 (`recheck`), undo. A seed that was reported before and is not now is printed as LOST."""
 import glob, json, os, subprocess, sys, time
-names = sys.argv[1:] or sorted(os.path.basename(os.path.dirname(p)) for p in glob.glob("/verif/seeded/*/meta.json"))
+names = [a for a in sys.argv[1:] if not a.startswith("--")] or sorted(os.path.basename(os.path.dirname(p)) for p in glob.glob("/verif/seeded/*/meta.json"))
 for n in names:
     d = "/verif/seeded/" + n
     meta = json.load(open(d + "/meta.json"))
     own = meta.get("property") or n[:3]
-    ids = list(dict.fromkeys([own] + meta.get("caught_by", [])))[:4]
+    if "recheck" in meta and "--again" not in sys.argv:
+        continue
+    cb = meta.get("caught_by", [])
+    ids = [own] if (own in cb or not cb) else [own, cb[0]]
     if n in ("C05c-1",):
         ids = ["C05"]
     subprocess.run(["git", "-C", "/repo", "checkout", "-q", "--", "."], check=True)
